@@ -1,7 +1,7 @@
 """property id -> harness modules (each explored to exhaustion per unit), level and claim text."""
 REGISTRY = {
     "C10": {
-        "harnesses": ["symx.harness.c10_step"],
+        "harnesses": ["symx.harness.c10_step", "symx.harness.c10_scn"],
         "level": "model_checking",
         "text": "Bounded symbolic model checking of the real Semaphore/CapacityLimiter code: (A) one synchronous step (release, acquire_nowait, "
                 "acquire/release_on_behalf_of, total_tokens setter) from an arbitrary state satisfying the representation invariant, counters symbolic "
@@ -24,6 +24,15 @@ REGISTRY["C07"] = {
             "child timing (pre/post sleeps), the started value and the instant (tick + cycle offset) at which the caller's or the group's scope is cancelled are symbolic; "
             "child behaviour / cleanup behaviour / cancel kind are a finite case split; every feasible ordering is executed and checked against the handshake oracle.",
     "note": "Trusted: z3, CrossHair, CPython's C Task/Future, VLoop stubs. Outside: several start() children at once, uvloop, trio.",
+}
+REGISTRY["C09"] = {
+    "harnesses": ["symx.harness.c09_lock"],
+    "level": "model_checking",
+    "text": "Bounded symbolic model checking of the real Lock code: (A) one synchronous step (release / acquire_nowait by owner, queued waiter or stranger) from an arbitrary "
+            "state satisfying the representation invariant (queue <=3, every waiter pending or cancelled); (B) 2-3 contending tasks on the real asyncio loop logic with a virtual clock, "
+            "sleep/hold durations and the cancel instant (tick + cycle offset; scope cancel or native Task.cancel) symbolic, so every ordering incl. the hand-off cycle is executed; "
+            "oracle over the observation log: mutual exclusion, owner identity, FIFO, no barging, cancel-safety, idle at the end, no deadlock.",
+    "note": "Trusted: z3, CrossHair, CPython's C Task/Future/deque, VLoop stubs. Outside: >3 tasks, queues >3, uvloop, trio.",
 }
 
 NOT_APPLICABLE = {
